@@ -212,7 +212,9 @@ func treeCmd(args []string) *rep.Result {
 		go func() {
 			defer wg.Done()
 			for j := range jobs {
-				runTreeEdge(j.e, j.pkg, &conc.Ctx{C: cp, V: cp.Variants[j.v], Seed: j.s}, j.enc, c.prop, res)
+				safely(res, "tree", &TreeCase{Sub: "tree", Edge: j.e, Pkg: j.pkg.Name, Variant: j.v, Seed: j.s, Enc: j.enc}, func() {
+					runTreeEdge(j.e, j.pkg, &conc.Ctx{C: cp, V: cp.Variants[j.v], Seed: j.s}, j.enc, c.prop, res)
+				})
 			}
 		}()
 	}
